@@ -141,7 +141,7 @@ func C16(p *core.Program, r *core.Report) {
 			}
 		})
 	}
-	r.Min("writers of convergenceElem.ttl", 5)
+	r.Min("writers of convergenceElem.ttl", 4)
 	r.Count("writers of convergenceElem.ttl", nW)
 
 	// ---- activate: successful=true only on Start()==nil; Start not called on active element
@@ -242,6 +242,47 @@ func C16(p *core.Program, r *core.Report) {
 		}
 	}
 
+	// ... and it IS cleared then: an adapter whose Start() failed and asked for no further retry must be forgotten,
+	// also when its element is kept in the registry by a caller that relies on the zero budget (a second
+	// registration of an inactive element only logs the failure)
+	nNR := 0
+	for _, blk := range act.Blocks {
+		ifi, ok := blk.Instrs[len(blk.Instrs)-1].(*ssa.If)
+		if !ok {
+			continue
+		}
+		ex, ok := ifi.Cond.(*ssa.Extract)
+		if !ok || ex.Index != 1 {
+			continue
+		}
+		isStart := false
+		for _, sc := range startInvokes(act) {
+			if ex.Tuple == sc {
+				isStart = true
+			}
+		}
+		if !isStart {
+			continue
+		}
+		nNR++
+		isZero := func(i ssa.Instruction) bool {
+			c, ok := i.(*ssa.Call)
+			if !ok || core.CalleeName(c) != "sync/atomic.StoreInt32" || !isTTLAddr(core.Arg(c, 0)) {
+				return false
+			}
+			k, isC := core.ConstInt(core.Arg(c, 1))
+			return isC && k == 0
+		}
+		okZ, exit := core.MustPassAfterSkipping(ifi, isZero, core.IsReturn, func(from *ssa.BasicBlock, succIdx int) bool { return from == blk && succIdx == 0 })
+		d := ""
+		if !okZ && exit != nil {
+			d = "the return at " + p.Pos(exit.Pos()) + " is reached on the no-retry edge with the budget untouched: the next retry tick (or a further registration) starts the adapter again although it asked not to be retried"
+		}
+		r.Check(okZ, "activation/"+fname(act)+"/no-retry-means-zero-budget", "when Start() fails and says that no retry shall be made, the retry budget is set to 0 on every path (the element is then forgotten by the retry loop and never started again)", p.Pos(ifi.Pos()), "", d)
+	}
+	r.Count("retry-wish tests in activate", nNR)
+	r.Min("retry-wish tests in activate", 1)
+
 	// ---- deactivate: close only when active, under the mutex, then wait for the ack
 	deact := p.Func(claPkg, "convergenceElem", "deactivate")
 	nClose := 0
@@ -260,6 +301,13 @@ func C16(p *core.Program, r *core.Report) {
 		r.Check(g && pathEndsWith(c.Common().Args[0], "stopSyn"), "stop-once/"+fname(deact)+"/close-guarded", "stopSyn is closed only if the element is active (channels exist, not closed before): stopping happens exactly once", p.Pos(c.Pos()), "", "close not guarded by isActive(); "+condStrings(conds))
 		_, held := dls.Held(c, mtx, true)
 		r.Check(held, "stop-once/"+fname(deact)+"/close-under-mutex", "the stop handshake runs under the element's mutex", p.Pos(c.Pos()), "", "held: "+dls.HeldNames(c))
+		// the active test that guards the close is made under the same mutex
+		ac, g2 := callGuard(conds, claPkg+".convergenceElem.isActive", true)
+		heldTest := false
+		if g2 {
+			_, heldTest = dls.Held(ac, mtx, true)
+		}
+		r.Check(g2 && heldTest, "stop-once/"+fname(deact)+"/active-test-under-mutex", "the isActive() test that guards close(stopSyn) is made while holding the element's mutex: of two concurrent deactivations (Unregister racing with Close) only one may stop the adapter", p.Pos(c.Pos()), "", "isActive() is tested before the mutex is taken: both callers pass it, the second closes a closed channel and panics")
 		okStore, _ := core.MustPassAfter(c, func(i ssa.Instruction) bool {
 			cc, isC := i.(*ssa.Call)
 			return isC && core.NameIs(core.CalleeName(cc), "sync/atomic.StoreInt32") && isTTLAddr(core.Arg(cc, 0))
